@@ -183,35 +183,47 @@ func ruleOmitTagConds(c *chk.Ctx) {
 		return
 	}
 	n := 0
-	ir.Instrs(f, func(ins ssa.Instruction) {
-		call, ok := ins.(*ssa.Call)
-		if !ok || !ir.IsCallTo(&call.Call, "fmt.Sprintf") {
-			return
+	c.P.ExtInstrs(f, func(ins ssa.Instruction) {
+		// the instruction that builds the tag text: a Sprintf with a json: format, or a string
+		// concatenation with a constant piece containing json:"
+		isTag := false
+		if call, ok := ins.(*ssa.Call); ok && ir.IsCallTo(&call.Call, "fmt.Sprintf") {
+			if s, isS := constString(call.Call.Args[0]); isS && strings.Contains(s, "json:") {
+				isTag = true
+			}
 		}
-		s, isS := constString(call.Call.Args[0])
-		if !isS || !strings.Contains(s, "json:") {
+		if bo, ok := ins.(*ssa.BinOp); ok && bo.Op == token.ADD {
+			for _, side := range []ssa.Value{bo.X, bo.Y} {
+				if s, isS := constString(side); isS && strings.Contains(s, "json:\"") {
+					isTag = true
+				}
+			}
+		}
+		if !isTag {
 			return
 		}
 		n++
 		ne, nd := false, false
-		for _, cd := range ir.CondsAt(call.Block()) {
-			bo, ok := cd.V.(*ssa.BinOp)
+		for _, cd := range c.P.CondsWithin(ins, f) {
+			x, y, op, ok := ir.Rel(cd)
 			if !ok {
 				continue
 			}
-			k, isK := constString(bo.Y)
+			k, isK := constString(y)
+			if !isK {
+				k, isK = constString(x)
+			}
 			if !isK {
 				continue
 			}
-			neq := (bo.Op == token.NEQ && cd.Truth) || (bo.Op == token.EQL && !cd.Truth)
-			if k == "" && neq {
+			if k == "" && op == token.NEQ {
 				ne = true
 			}
-			if k == "-" && neq {
+			if k == "-" && op == token.NEQ {
 				nd = true
 			}
 		}
-		c.Check(ne && nd, "PAIR.positional", f, "a name is usable only if it is neither empty nor \"-\"", call.Pos(), "the json name tag is generated only on the name != \"\" ∧ name != \"-\" edge; otherwise the field is unreachable by name", "the json name tag is generated although the name may be empty or \"-\": the slot would be settable through the generated field name, bypassing the given names")
+		c.Check(ne && nd, "PAIR.positional", f, "a name is usable only if it is neither empty nor \"-\"", ins.Pos(), "the json name tag is generated only on the name != \"\" ∧ name != \"-\" edge; otherwise the field is unreachable by name", "the json name tag is generated although the name may be empty or \"-\": the slot would be settable through the generated field name, bypassing the given names")
 	})
 	if n == 0 {
 		c.Undecided("PAIR.positional", f, "tag generation", f.Pos(), "no generated json tag found")
@@ -488,49 +500,62 @@ func ruleLoopSuccessReachesFinish(c *chk.Ctx) {
 // ruleArrayTranslateTotal: the array-to-object translation maps every element
 // to its name (no element is skipped).
 func ruleArrayTranslateTotal(c *chk.Ctx) {
-	f := handlerFunc(c, "(*arrayStub).translate")
-	if f == nil {
-		return
-	}
 	n := 0
-	ir.Instrs(f, func(ins ssa.Instruction) {
-		mu, ok := ins.(*ssa.MapUpdate)
-		if !ok {
-			return
-		}
-		n++
-		var extra []string
-		for _, cd := range ir.CondsAt(mu.Block()) {
-			if isLoopCond(cd) || isLenCond(cd) {
-				continue
+	for _, f := range pkgFuncs(c, c.M.HandlerPkg) {
+		f := f
+		ir.Instrs(f, func(ins ssa.Instruction) {
+			mu, ok := ins.(*ssa.MapUpdate)
+			if !ok {
+				return
 			}
-			if x, _, ok := ir.NilCompare(cd.V); ok {
-				if _, isCall := x.(*ssa.Call); isCall {
-					continue // the array parse succeeded
+			// the array-to-object translation: a raw element of a parsed array stored into a map
+			if !strings.HasSuffix(mu.Value.Type().String(), "json.RawMessage") {
+				return
+			}
+			if u, isU := mu.Value.(*ssa.UnOp); !isU {
+				return
+			} else if _, isIA := u.X.(*ssa.IndexAddr); !isIA {
+				return
+			}
+			n++
+			var extra []string
+			for _, cd := range ir.CondsAt(mu.Block()) {
+				if isLoopCond(cd) || isLenCond(cd) {
+					continue
 				}
-			}
-			if bo, ok := cd.V.(*ssa.BinOp); ok {
-				if k, isK := ir.ConstInt(bo.Y); isK && k == '[' {
-					continue // input is an array
+				if x, _, ok := ir.NilCompare(cd.V); ok {
+					if _, isCall := x.(*ssa.Call); isCall {
+						continue // the array parse succeeded
+					}
+					if e, isE := x.(*ssa.Extract); isE {
+						if _, isCall := e.Tuple.(*ssa.Call); isCall {
+							continue // the array parse (in a helper) succeeded
+						}
+					}
 				}
+				if bo, ok := cd.V.(*ssa.BinOp); ok {
+					if k, isK := ir.ConstInt(bo.Y); isK && k == '[' {
+						continue // input is an array
+					}
+				}
+				extra = append(extra, cd.V.String())
 			}
-			extra = append(extra, cd.V.String())
-		}
-		// index provenance: obj[names[i]] = arr[i]
-		sameIdx := false
-		if u, ok := mu.Value.(*ssa.UnOp); ok {
-			if ia, ok := u.X.(*ssa.IndexAddr); ok {
-				if ku, ok := mu.Key.(*ssa.UnOp); ok {
-					if kia, ok := ku.X.(*ssa.IndexAddr); ok && kia.Index == ia.Index {
-						sameIdx = true
+			// index provenance: obj[names[i]] = arr[i]
+			sameIdx := false
+			if u, ok := mu.Value.(*ssa.UnOp); ok {
+				if ia, ok := u.X.(*ssa.IndexAddr); ok {
+					if ku, ok := mu.Key.(*ssa.UnOp); ok {
+						if kia, ok := ku.X.(*ssa.IndexAddr); ok && kia.Index == ia.Index {
+							sameIdx = true
+						}
 					}
 				}
 			}
-		}
-		c.Check(len(extra) == 0 && sameIdx, "PAIR.length", f, "every element is mapped to its name", mu.Pos(), "obj[names[i]] = arr[i] for every i, unconditionally", "the array-to-object translation skips or misplaces elements (conditions: "+strings.Join(extra, "; ")+"): the function would receive a different argument than the documented array-to-field mapping gives")
-	})
+			c.Check(len(extra) == 0 && sameIdx, "PAIR.length", f, "every element is mapped to its name", mu.Pos(), "obj[names[i]] = arr[i] for every i, unconditionally", "the array-to-object translation skips or misplaces elements (conditions: "+strings.Join(extra, "; ")+"): the function would receive a different argument than the documented array-to-field mapping gives")
+		})
+	}
 	if n == 0 {
-		c.Undecided("PAIR.length", f, "element mapping", f.Pos(), "no element mapping found in the array translation")
+		c.Undecided("PAIR.length", nil, "element mapping", 0, "no element mapping found in the array translation")
 	}
 }
 
@@ -677,7 +702,6 @@ func ruleNullErrorIsAbsent(c *chk.Ctx) {
 		c.Undecided("TABLE.null", nil, "member parser", 0, "member parser not found")
 	}
 }
-
 
 // taskLoopFunc: the function that holds the loop over the batch's tasks: the
 // smallest region from which every handler invocation is reached (the batch
